@@ -50,6 +50,8 @@ TIERS = {
     "thorough": dict(plans=1500, faulty=10, det_plans=128, min_budget=160, min_groups=12, spine=True),
 }
 
+REAL_RUN_TIMEOUT_S = 45
+
 _perf = time.perf_counter
 
 
@@ -151,7 +153,17 @@ def _real_run(args, env_extra=None, stdout=None, drop_env=()):
     e["PYTHONHASHSEED"] = "0"
     e["PYTHONDONTWRITEBYTECODE"] = "1"
     e.update(env_extra or {})
-    p = subprocess.run([sys.executable, _tree.tool_path()] + args, cwd=_tree.REPO, env=e, stdout=stdout, stderr=subprocess.PIPE, timeout=300)
+    try:
+        p = subprocess.run([sys.executable, _tree.tool_path()] + args, cwd=_tree.REPO, env=e, stdout=stdout, stderr=subprocess.PIPE, timeout=REAL_RUN_TIMEOUT_S)
+    except subprocess.TimeoutExpired:
+        # The real tool did not finish.  That is not a verdict (no wall clock takes part in
+        # one): the simulated runs will say GEN_HANG by step budget if it really loops.
+        class _T:
+            returncode = "timeout"
+            stdout = b""
+            stderr = b""
+
+        return _T()
     return p
 
 
@@ -179,6 +191,10 @@ def exit_model_validation(ctx):
     r = _real_run(args, stdout=subprocess.PIPE)
     s, d = simulate({}, [])
     cases.append({"case": "fault-free to a pipe", "real": r.returncode, "sim": s["status"], "bytes_equal": strip_year(r.stdout) == strip_year(d)})
+    if r.returncode == "timeout":
+        # the real tool does not even finish a plain run: nothing else can be compared; the
+        # simulated runs decide (by step budget) whether that is a hang
+        return {"cases": cases, "n": 0, "not_comparable": 1, "agreed": 0, "agreed_exact_status": 0}
     # 2. /dev/full, block buffered
     with open("/dev/full", "wb") as full:
         r = _real_run(args, stdout=full)
@@ -224,12 +240,19 @@ def exit_model_validation(ctx):
     cases.append({"case": "usage error", "real": r.returncode, "sim": s["status"]})
     agreed = 0
     agreed_exact = 0
+    comparable = 0
     for c in cases:
+        if c["real"] == "timeout" or c["sim"] is None:
+            # real run timed out / simulated run hit the step budget: nothing to compare
+            c["agree_class"] = None
+            c["agree_exact"] = None
+            continue
+        comparable += 1
         c["agree_class"] = (c["real"] == 0) == (c["sim"] == 0) and c.get("bytes_equal", True)
         c["agree_exact"] = c["real"] == c["sim"]
         agreed += bool(c["agree_class"])
         agreed_exact += bool(c["agree_exact"])
-    return {"cases": cases, "n": len(cases), "agreed": agreed, "agreed_exact_status": agreed_exact}
+    return {"cases": cases, "n": comparable, "not_comparable": len(cases) - comparable, "agreed": agreed, "agreed_exact_status": agreed_exact}
 
 
 # ------------------------------------------------------------------------------------------------
@@ -540,6 +563,8 @@ def write_and_gate_replay(ctx, tree, g, mcase, original, final, info):
         "events": events,
         "minimisation": info,
         "tree_fingerprint": tree.fingerprint(),
+        "step_budget": ctx.step_budget,
+        "event_cap": ctx.event_cap,
         "python": sys.executable,
         "replay_cmd": "python3 sim/run.py c20 --replay <this file>",
     }
@@ -574,6 +599,8 @@ def replay(path, as_json=False, jobs=4):
     scratch = Scratch()
     case = doc["case"]
     ctx = make_context(jobs, scratch, hashseeds=(case.get("hashseed", 0),))
+    ctx.step_budget = int(doc.get("step_budget") or ctx.step_budget)
+    ctx.event_cap = int(doc.get("event_cap") or ctx.event_cap)
     try:
         same_tree = ctx.tree.fingerprint() == doc.get("tree_fingerprint")
         ev = _check.evaluate_case(ctx, case, want_events=True)
@@ -715,4 +742,15 @@ def main():
 
 
 if __name__ == "__main__":
-    sys.exit(main())
+    try:
+        rc = main()
+    except SystemExit:
+        raise
+    except BaseException:
+        # a crash of the harness is never a verdict about the property
+        import traceback
+
+        traceback.print_exc()
+        print("HARNESS ERROR: no verdict", flush=True)
+        rc = 2
+    sys.exit(rc)
